@@ -297,6 +297,9 @@ pub fn spell(rng: &mut Rng, v: &V, toks: &[Tok], o: &Opts) -> Spelled {
         // the '+' may be left out only when the text then starts with the digits of a field
         // (a leading '-' separator would otherwise be read as the sign)
         let starts_with_field = toks.first().map(is_numeric).unwrap_or(false);
+        if o.lenient && rng.chance(1, 8) {
+            text.push_str(&" ".repeat(1 + rng.below(3) as usize));
+        }
         if v.negative() {
             text.push('-');
         } else if !o.lenient || !starts_with_field || rng.chance(1, 2) {
@@ -811,8 +814,8 @@ pub fn gen_picture(rng: &mut Rng, ty: Ty, lossless: bool) -> Option<GenPic> {
 pub fn canonical_pictures(ty: Ty) -> &'static [&'static str] {
     match ty {
         Ty::Date => &["YYYY-MM-DD", "DD/MM/YYYY", "YYYY MON DD", "DAY, DD MONTH YYYY", "YYYYMMDD", "YYYY DDD", "YYYY-DDD", "DY YYYY.MM.DD DDD", "D YYYY MON DD", "Month DD, YYYY", "dd-mon-yyyy", "YYYYDDD", "MM\\DD\\YYYY;dy"],
-        Ty::Time => &["HH24:MI:SS.FF", "HH:MI:SS AM", "A.M. HH12.MI.SS.FF6", "HH24MISS", "HH24:MI:SS.FF3", "SS:MI:HH24", "PM HH:MI", "HH24:MI:SS.FF9", "HH24:MI", "HH24", "hh24-mi-ss", "HH12:MI:SS.FF7 P.M.", "MI:SS.FF2", "FF6"],
-        Ty::Ts => &["YYYY-MM-DD HH24:MI:SS.FF", "YYYY-MM-DDTHH24:MI:SS.FF9", "DD-MON-YYYY HH:MI:SS.FF AM", "YYYYMMDDHH24MISSFF6", "DAY DD MONTH YYYY HH12 P.M. MI SS", "YYYY/DDD HH24:MI", "YYYY-MM-DD HH24:MI:SS.FF7", "yyyy.mm.dd hh24:mi:ss.ff3", "YYYY-MM-DD"],
+        Ty::Time => &["HH24:MI:SS.FF", "HH:MI:SS AM", "A.M. HH12.MI.SS.FF6", "HH24MISS", "HH24:MI:SS.FF3", "SS:MI:HH24", "PM HH:MI", "HH24:MI:SS.FF9", "HH24:MI", "HH24", "hh24-mi-ss", "HH12:MI:SS.FF7 P.M.", "MI:SS.FF2", "FF6", "MI:SS P.M.", "AM", "pm MI"],
+        Ty::Ts => &["YYYY-MM-DD HH24:MI:SS.FF", "YYYY-MM-DDTHH24:MI:SS.FF9", "DD-MON-YYYY HH:MI:SS.FF AM", "YYYYMMDDHH24MISSFF6", "DAY DD MONTH YYYY HH12 P.M. MI SS", "YYYY/DDD HH24:MI", "YYYY-MM-DD HH24:MI:SS.FF7", "yyyy.mm.dd hh24:mi:ss.ff3", "YYYY-MM-DD", "YYYY-MM-DD PM", "YYYY-MM-DD MI A.M."],
         Ty::Ora => &["YYYY-MM-DD HH24:MI:SS", "DD-MON-YYYY HH:MI:SS AM", "YYYYMMDDHH24MISS", "YYYY DDD HH24-MI-SS DY", "YYYY-MM-DD", "Month DD YYYY, HH12:MI A.M."],
         Ty::YM => &["YYYY-MM", "YY-MM", "Y MM", "YYYY/MM", "MM-YYYY", "MM", "YYYY", "YYY.MM", " YYYY-MM"],
         Ty::DT => &["DD HH24:MI:SS.FF", "DD HH24:MI:SS.FF6", "DD HH24:MI:SS", "DD HH24 MI SS FF9", "HH24:MI:SS", "DD", "HH24:MI:SS.FF DD", "MI:SS.FF3", "DD HH24:MI:SS.FF7", "FF6 SS MI HH24 DD"],
